@@ -44,6 +44,8 @@ NextNotify == depth < MaxDepth /\
   \/ \E mc \in Clients, ip \in LanIPs \cup ExtIPs, nm \in NameVals :
         DhcpAckStep(mc, ip, nm) /\ Step([a |-> "dhcpack", mac |-> mc, ip |-> ip, name |-> nm])
   \/ \E mc \in Clients : Capture(mc) /\ Step([a |-> "capture", mac |-> mc])
+  \/ \E mc \in Clients, ip \in LanIPs, nm \in NameVals :      \* the DHCP server recording an offer (DISCOVER)
+        SetOffer(mc, ip, nm) /\ Step([a |-> "offer", mac |-> mc, ip |-> ip, name |-> nm])
   \/ \E d \in Steps : Advance(d) /\ Step([a |-> "adv", d |-> d])
   \/ Purge /\ Step([a |-> "purge"])
 
